@@ -25,8 +25,7 @@ func init() {
 }
 
 func c16Rule(d *draws) *btapb.GcRule {
-	sub := &draws{v: d.v[d.i : d.i+6]}
-	d.i += 6
+	sub := d.sub(6)
 	age := func() *durationpb.Duration {
 		return &durationpb.Duration{Seconds: []int64{0, 1, 3600}[sub.n(3)], Nanos: []int32{0, 5000000, 1000}[sub.n(3)]}
 	}
@@ -222,6 +221,12 @@ func c16Policy(r *Run, cfg *Stream) {
 		}
 		if err := compareRows("after one forced GC pass (now="+fmt.Sprint(now)+", rules "+famsString(fams)+") table "+shortTable(t), rr.Rows, model.Tables[t].render(), false); err != nil {
 			r.Fail("gc-policy", "", "%v\n  before: %s", err, rowsString(before.render()))
+			return
+		}
+		// rows left without cells are removed: SampleRowKeys must not report them
+		sop := btOp{Kind: "Sample", Table: t}
+		if k, msg := model.step(sop, execOp(w, sop), now); k != "" {
+			r.Fail("gc-empty-row-kept", "", "after one forced GC pass (rules %s): %s\n  before: %s", famsString(fams), msg, rowsString(before.render()))
 			return
 		}
 	}
